@@ -243,8 +243,11 @@ bool File::copy(const String& src, const String& destination, bool failIfExists)
     }
     if(sendfile(dest, fd, 0, size) != size)
     {
+      int err = errno;
       ::close(fd);
       ::close(dest);
+      ::unlink(destination); // do not leave an incomplete copy behind
+      errno = err;
       return false;
     }
     ::close(fd);
